@@ -3,7 +3,7 @@
     sumbool, comparison -> OCaml natives); N, Z, positive, byte stay Coq
     datatypes.  No Extract Constant of ours. *)
 From Coq Require Import Extraction ExtrOcamlBasic.
-From Verif Require Import Bytes Crc32 Codec Dec ListDS SetDS ZSetDS Index Engine.
+From Verif Require Import Bytes Crc32 Codec Dec ListDS SetDS ZSetDS Index Engine Spec.
 Extraction Language OCaml.
 Set Extraction KeepSingleton.
 Extraction "model.ml"
@@ -11,4 +11,4 @@ Extraction "model.ml"
   encode_entry decode_at entry_size
   encode_rootidx decode_rootidx_at
   encode_bucketmeta decode_bucketmeta
-  step empty_world do_open.
+  step empty_world do_open spec_step sworld0.
